@@ -108,7 +108,7 @@ pub fn run_grid(sim: &Sim, idx: u64) {
         req_md: vec![],
         req_msgs: (0..nreq).map(|_| compressible(sim)).collect(),
         tag: 0,
-        script: Script { msgs: (0..nresp).map(|_| compressible(sim)).collect(), disable_compression: shape <= 1 && sim.chance(1, 4), src_pending: sim.pick(&[0u64, 30]), ..Default::default() },
+        script: Script { msgs: (0..nresp).map(|_| compressible(sim)).collect(), disable_compression: shape <= 1 && sim.chance(1, 4), /* documented: no effect on response streams */ src_pending: sim.pick(&[0u64, 30]), ..Default::default() },
         req_src_pending: 0,
         extra_polls: 0,
     };
@@ -116,7 +116,18 @@ pub fn run_grid(sim: &Sim, idx: u64) {
     sim.sample(|| format!("grid cell {cell}: {:?} shape={} disable_compression={}", cfg, c02::SHAPES[shape], plan.script.disable_compression));
     sim.ev(|| format!("config: cell {cell} {:?} shape={} disable_compression={}", cfg, c02::SHAPES[shape], plan.script.disable_compression));
     let handler = Handler::new(sim);
-    handler.add_script(1, plan.script.clone());
+    // a forwarding handler that re-uses upstream response metadata: `grpc-encoding` is not a
+    // reserved name, but when the server negotiates an encoding itself the announced one must be
+    // the one the body is really compressed with (only drawn when one will be negotiated: with
+    // nothing negotiated the header is simply the user's)
+    let mut hscript = plan.script.clone();
+    if cfg.server_send.iter().any(|e| cfg.client_accept.contains(e)) && sim.chance(1, 4) {
+        let forged = sim.pick(&["identity", "gzip", "deflate", "zstd"]);
+        hscript.initial_md.push(crate::gen::MdEntry { key: "grpc-encoding".into(), bin: false, val: forged.as_bytes().to_vec(), reserved: false, key_case: 0 });
+        sim.fault("handler-metadata-carries-grpc-encoding");
+        sim.ev(|| format!("config: handler's response metadata carries grpc-encoding: {forged}"));
+    }
+    handler.add_script(1, hscript);
     let server = c02::configure!(crate::rawsvc::raw_server::RawServer::new(handler.clone()), cfg, server);
     let lb = Loopback::new(sim, server);
     let tap = lb.tap.clone();
